@@ -35,6 +35,17 @@ def pred_not_hop(eng, x):
     return z3.And([F_LOWER(k.t) != z3.StringVal(h) for h in HOP])
 
 
+def pred_not_cl(eng, x):
+    """a header entry whose name is not Content-Length in any letter case"""
+    from vlib.builtins_model import F_LOWER
+    if not (isinstance(x, VTuple) and len(x.items) == 2):
+        return z3.BoolVal(False)
+    k = eng.force(x.items[0])
+    if not isinstance(k, VStr):
+        return z3.BoolVal(False)
+    return F_LOWER(k.t) != z3.StringVal("content-length")
+
+
 def pred_no_crlf(eng, x):
     x = eng.force(x)
     if not isinstance(x, VStr):
@@ -130,7 +141,7 @@ def install(reg):
     reg.classes[PARSER].fields["body_rcv"] = Opt(Opaque("receiver"))
     reg.classes[PARSER].invariants = []
     reg.install_std_specs()
-    reg.elem_preds.update({"hdr_ok": pred_hdr_ok, "not_hop": pred_not_hop, "no_crlf": pred_no_crlf})
+    reg.elem_preds.update({"hdr_ok": pred_hdr_ok, "not_hop": pred_not_hop, "no_crlf": pred_no_crlf, "not_cl": pred_not_cl})
     reg.spec_funcs.update({"no_crlf": no_crlf, "has_body": has_body_spec, "wire_endswith": wire_endswith, "final": final, "chunk_of": chunk_of, "writes": writes})
     reg.add_class(ClassSpec(SRVM, fields={"adj": Obj("adjustments.Adjustments"), "application": Opaque("app")}))
     reg.add_class(ClassSpec(CHM, fields={"server": Obj(SRVM), "adj": Obj("adjustments.Adjustments"), "wire": Bytes, "connected": Bool, "addr": Opaque("addr")},
@@ -341,8 +352,11 @@ def install_execute(reg, IDENT, CLREQ):
         modifies=["self.remain"]))
     reg.add(FuncContract("buffers.FileBasedBuffer.close", modifies=["self.remain"], check_invariant=False))
     reg.add(FuncContract("task.WSGITask.get_environment", returns=Opaque("environ")))
-    reg.add(FuncContract(T + ".remove_content_length_header", loops={0: LoopSpec(invariants=[("C08-kept-headers-wellformed", "all_elems(response_headers, 'hdr_ok')")],
+    reg.add(FuncContract(T + ".remove_content_length_header", loops={0: LoopSpec(invariants=[("C08-kept-headers-wellformed", "all_elems(response_headers, 'hdr_ok')"),
+                                                                                             ("C03-no-content-length-among-the-kept-headers", "all_elems(response_headers, 'not_cl')")],
                                                                                  types={"response_headers": ListOf(TupleOf(Str, Str))})},
+                         # whatever the application's spelling of the field name: a stale Content-Length next to the real framing corrupts the stream
+                         ensures=[("C03-no-content-length-header-left-in-any-letter-case", "all_elems(self.response_headers, 'not_cl')")],
                          modifies=["self.response_headers"]))
 
     reg.add(FuncContract("task.ErrorTask.execute", requires=[IDENT, ("has-error", "self.request.error is not None"), ("fresh", "not self.wrote_header and self.complete"),
